@@ -51,7 +51,10 @@ def r_cmp(F, R):
             tag = callee_tag(t.get("callee"))
             if tag in ALL_CMP:
                 comps.append((bi, t, tag))
-        R.check("R-CMP", b.label(), bool(comps), construct="delegates to a comparator",
+        if not comps:
+            R.undecided_site("R-CMP", b.label(), "hand-written comparison without a comparator call: not decided")
+            continue
+        R.check("R-CMP", b.label(), True, construct="delegates to a comparator",
                 where=b.where(), detail="%d comparator calls" % len(comps), nontrivial=False)
         names = set()
         for (bi, t, tag) in comps:
